@@ -56,20 +56,59 @@ for f in gencoqproject.closure(["GenEquiv/%s.v" % sys.argv[1]]):
         print(f)
 EOF
 )" || fail "cannot compute the Require closure"
-# GoSem is ours: (re)compile it when its .vo is missing or older than the source
-if [ ! -f "$COQ/GenLib/GoSem.vo" ] || [ "$COQ/GenLib/GoSem.vo" -ot "$COQ/GenLib/GoSem.v" ]; then
+# coq/GenLib (GoSem, GoSemBridge) is ours: (re)compile what is missing or older than its source
+for f in GenLib/GoSem.v $(echo "$CLOSURE" | grep '^GenLib/' | grep -v '^GenLib/GoSem.v$'); do
+  if [ ! -f "$COQ/${f}o" ] || [ "$COQ/${f}o" -ot "$COQ/$f" ] || [ "$COQ/${f}o" -ot "$COQ/GenLib/GoSem.v" ]; then
+    (
+      flock 9
+      if [ ! -f "$COQ/${f}o" ] || [ "$COQ/${f}o" -ot "$COQ/$f" ] || [ "$COQ/${f}o" -ot "$COQ/GenLib/GoSem.v" ]; then
+        for g in $(cd "$ROOT" && python3 -c "
+import sys; sys.path.insert(0,'tools'); import gencoqproject
+print(' '.join(x for x in gencoqproject.closure(['$f']) if not x.startswith('GenLib/')))"); do
+          [ -f "$COQ/${g}o" ] || { echo "File $g: missing .vo: run ./check $PID (or ./setup.sh) first"; exit 1; }
+        done
+        cd "$COQ" && timeout 600 coqc -Q . ST "$f"
+      fi
+    ) 9>"$ROOT/build/.gosem.lock" >"$TMP/genlib.log" 2>&1 || fail "$f: $(grep -m1 -A3 '^Error\|^File' "$TMP/genlib.log")"
+  fi
+done
+# the models' .vo files: up to date w.r.t. their sources and their dependencies?  If not, build exactly
+# those targets with the property's own Makefile under the lock ./check uses for it.
+stale() {
+  cd "$ROOT" && python3 - $CLOSURE <<'EOF2'
+import os, sys
+sys.path.insert(0, "tools")
+import gencoqproject
+COQ = gencoqproject.COQ
+bad = []
+for f in sys.argv[1:]:
+    if f.startswith("GenLib/"):
+        continue
+    vo = os.path.join(COQ, f + "o")
+    if not os.path.exists(vo) or os.path.getmtime(vo) < os.path.getmtime(os.path.join(COQ, f)):
+        bad.append(f + "o"); continue
+    for g in gencoqproject.requires(f):
+        gvo = os.path.join(COQ, g + "o")
+        if os.path.exists(os.path.join(COQ, g)) and (not os.path.exists(gvo) or os.path.getmtime(vo) < os.path.getmtime(gvo)):
+            bad.append(f + "o"); break
+print(" ".join(bad))
+EOF2
+}
+BAD="$(stale)"
+if [ -n "$BAD" ]; then
+  [ -f "$COQ/Makefile.$PID" ] || fail "stale or missing $BAD and no coq/Makefile.$PID: run ./check $PID (or ./setup.sh) first"
+  TARGETS="$(for f in $CLOSURE; do case "$f" in GenLib/*) ;; *) echo "${f}o";; esac; done)"
   (
     flock 9
-    if [ ! -f "$COQ/GenLib/GoSem.vo" ] || [ "$COQ/GenLib/GoSem.vo" -ot "$COQ/GenLib/GoSem.v" ]; then
-      cd "$COQ" && timeout 600 coqc -Q . ST GenLib/GoSem.v
-    fi
-  ) 9>"$ROOT/build/.gosem.lock" >"$TMP/gosem.log" 2>&1 || fail "GenLib/GoSem.v: $(grep -m1 -A3 '^Error\|^File' "$TMP/gosem.log")"
+    cd "$COQ" && timeout 3000 make -f "Makefile.$PID" -j4 $TARGETS
+  ) 9>"$ROOT/build/.coq.$PID.lock" >"$TMP/make.log" 2>&1 || fail "cannot bring $BAD up to date with coq/Makefile.$PID ($(grep -m1 'Error\|\*\*\*' "$TMP/make.log")): run ./check $PID first"
+  BAD="$(stale)"
+  [ -z "$BAD" ] || fail "still stale after make: $BAD: run ./check $PID first"
+  # GenLib files compiled against the old .vo must follow
+  for f in $(echo "$CLOSURE" | grep '^GenLib/' | grep -v '^GenLib/GoSem.v$'); do
+    ( flock 9; cd "$COQ" && timeout 600 coqc -Q . ST "$f" ) 9>"$ROOT/build/.gosem.lock" >"$TMP/genlib.log" 2>&1 || fail "$f: $(grep -m1 -A3 '^Error\|^File' "$TMP/genlib.log")"
+  done
 fi
-for f in $CLOSURE; do
-  vo="$COQ/${f}o"
-  [ -f "$vo" ] || fail "missing $vo: run ./check $PID (or ./setup.sh) first"
-  [ "$vo" -ot "$COQ/$f" ] && fail "$vo is older than its source: run ./check $PID first"
-done
 # fingerprint of everything the result depends on
 FP="$( { cat "$TMP/Gen.v" "$EQUIV"; for f in $CLOSURE; do sha256sum "$COQ/$f" | cut -c1-64; done; } | sha256sum | cut -c1-64)"
 
@@ -93,7 +132,9 @@ cd "$DIR" || fail "cannot enter $DIR"
 if ! timeout 600 coqc -Q "$COQ" ST -Q . STGen Gen.v >gen.log 2>&1; then
   fail "Gen.v does not compile: $(grep -m1 -A4 '^File' gen.log)"
 fi
-if ! timeout 600 coqc -Q "$COQ" ST -Q . STGen "$PID.v" >equiv.log 2>&1; then
+timeout "${GENEQUIV_TIMEOUT:-600}" coqc -Q "$COQ" ST -Q . STGen "$PID.v" >equiv.log 2>&1; rc=$?
+[ $rc = 124 ] && fail "coq/GenEquiv/$PID.v (against $REPO): coqc timed out (a proof no longer goes through quickly)"
+if [ $rc != 0 ]; then
   fail "coq/GenEquiv/$PID.v (against $REPO): $(grep -m1 -A6 '^File' equiv.log)"
 fi
 cp equiv.log assumptions.txt
